@@ -6,7 +6,7 @@
   once each, identical, in order, no exception; the carried remainder is the emitted part of the next PTDP.
   `doneCount encs c` = number of leading PTDP encodings that fit completely into the first c bytes.
 -/
-import Acra.Lemmas.Chapter7Dec
+import Acra.Lemmas.Chapter7Asm
 import Acra.Props.C10.Stream
 namespace Acra.Props.C10
 open Acra.Py Acra.Model.Chapter7 Acra.Lemmas.Chapter7 Acra.Gen.Chapter7
@@ -69,5 +69,46 @@ theorem decap_encap_ptdps (pkts : List Bytes) (L sid : Nat) (hL : 0 < L) (hL2 : 
       unfold decap
       rw [hw, hfr]
       simp [hn, stream, encs]
+
+
+theorem stream_cons (b : Bytes) (rest : List Bytes) :
+    stream (b :: rest) = (pktEnc b).flatten ++ stream rest := by
+  simp [stream, encs, ptdps, normal, datapktsToPtdp, pktEnc]
+
+/-- `pktDone pkts c` is the number of leading packets whose complete encoding (all their PTDPs) lies
+    within the first `c` bytes of the stream: those, and no more -/
+theorem pktDone_spec (pkts : List Bytes) (c : Nat) :
+    (stream (pkts.take (pktDone pkts c))).length ≤ c ∧
+    (pktDone pkts c < pkts.length → c < (stream (pkts.take (pktDone pkts c + 1))).length) := by
+  induction pkts generalizing c with
+  | nil => simp [pktDone, stream, encs, ptdps, normal, datapktsToPtdp]
+  | cons b rest ih =>
+    simp only [pktDone]
+    by_cases hfit : (pktEnc b).flatten.length ≤ c
+    · simp only [hfit, if_true]
+      obtain ⟨h1, h2⟩ := ih (c - (pktEnc b).flatten.length)
+      rw [Nat.add_comm 1, List.take_succ_cons, List.take_succ_cons, stream_cons, stream_cons]
+      simp only [List.length_append, List.length_cons]
+      exact ⟨by omega, fun h => by have := h2 (by omega); omega⟩
+    · simp only [hfit, if_false, List.take_zero, Nat.zero_add]
+      refine ⟨by simp [stream, encs, ptdps, normal, datapktsToPtdp], fun _ => ?_⟩
+      rw [List.take_succ_cons, stream_cons]
+      simp only [List.length_append]; omega
+
+/-- decap ∘ encap, normal traffic: the consumer loop, fed the frames emitted so far, returns — after
+    fragment reassembly — every packet whose last byte has been emitted (`pktDone_spec`), exactly
+    once, byte-identical, in the original order, none flagged low-latency, and raises nothing -/
+theorem decap_encap (pkts : List Bytes) (L sid : Nat) (hL : 0 < L) (hL2 : L ≤ 2047) (hs : sid < 16)
+    (cur : PTFR.State) (out : List PTFR.State) (h : datapktsToPtfr (normal pkts) L sid = .ok (cur, out)) :
+    (decap L (out.map wire)).2 = none ∧
+    reassemble (decap L (out.map wire)).1.ptdps = normal (pkts.take (pktDone pkts (out.length * L))) := by
+  obtain ⟨_, hd⟩ := decap_encap_ptdps pkts L sid hL hL2 hs cur out h
+  rw [hd]
+  refine ⟨rfl, ?_⟩
+  simp only [reassemble, ptdps, encs, normal]
+  have := asm_stream pkts (out.length * L) { normal := none, low := none, done := [] } rfl
+  simpa using this
+
+example : normal [[1, 2, 3], []] = [([1, 2, 3], false), ([], false)] := rfl
 
 end Acra.Props.C10
